@@ -266,7 +266,7 @@ class Loop2(LoopContract):
         ks.P = insert(ks.P, ks.cur)
 
 
-@unit("kahn.assert_acyclic", props=["C07", "C02"], functions=[(NU, "topological_sort"), (NU, "assert_acyclic")], inlined=["topological_sort"],
+@unit("kahn.assert_acyclic", props=["C07", "C02", "C04"], functions=[(NU, "topological_sort"), (NU, "assert_acyclic")], inlined=["topological_sort"],
       assumptions=["T5 graph.pred / graph.succ / graph.nodes views", "L-RANK: a numbering that increases along every edge excludes cycles",
                    "L-CYCLE: a non-empty finite set in which every node has a predecessor in the set contains a cycle",
                    "termination of the work-list loop is not an obligation here (each iteration moves one node into P; finite graph)"],
